@@ -1,5 +1,3 @@
 package main
 
 func runLemmas(p *Program, cx *Contracts, cfg *PropConfig) ([]*Obligation, []string) { return nil, nil }
-
-
